@@ -361,7 +361,8 @@ Section T.
   Lemma bstep_spec intag st t : J intag st -> token_ok intag t = true -> Rs (J (next_intag intag t)) (bstep bi st t).
   Proof.
     intros [G Hi] Hok. destruct t; cbn [bstep next_intag token_ok] in *.
-    - (* Decl *) destruct intag; [discriminate|]. destruct (str_eqb _ _); [|exact I]. cbn. split; assumption.
+    - (* Decl *) destruct intag; [discriminate|]. destruct (str_eqb _ _); [|exact I].
+      destruct encoding as [e|]; [destruct (valid_encname _); [|exact I]|]; cbn; split; assumption.
     - (* PI *) destruct intag; [discriminate|].
       destruct (reserved_target (ss_text target)).
       { (* the XML declaration in its other spelling, or the reserved target: the state stays, or an error *)
